@@ -146,7 +146,14 @@ class History:
                     if p.startswith(b"d/"):
                         listing[b"e/" + p[2:]] = v
             elif kind == "link":
-                listing[b"sub"] = ("g", op[1] % len(GITLINKS))
+                k = op[1]
+                if k >= len(GITLINKS) and n > 0:
+                    # a gitlink naming a commit of this very repository (a project mounting one of its own branches):
+                    # any commit built earlier, ancestor or not.  Gitlinks are never followed, so the commit belongs to a
+                    # closure only if it is reachable some other way
+                    listing[b"sub"] = ("G", (k - len(GITLINKS)) % n)
+                else:
+                    listing[b"sub"] = ("g", k % len(GITLINKS))
             elif kind == "sym":
                 listing[b"l"] = ("l", op[1] % len(SYM_TARGETS))
             elif kind == "take":
@@ -166,6 +173,8 @@ class History:
             return (0o100755 if v[3] else 0o100644), self._add(b"blob", doc(v[1], v[2]))
         if v[0] == "l":
             return 0o120000, self._add(b"blob", SYM_TARGETS[v[1]])
+        if v[0] == "G":
+            return 0o160000, self.commit_ids[v[1]]
         return 0o160000, GITLINKS[v[1]]
 
     def _write_tree(self, listing, prefix=b""):
@@ -258,6 +267,12 @@ class History:
             labels.add("dag:tag-of-" + k.decode())
         if any(v[0] == "g" for l in self.listings for v in l.values()):
             labels.add("dag:gitlink")
+        for i, l in enumerate(self.listings):
+            for v in l.values():
+                if v[0] == "G":
+                    labels.add("dag:gitlink-to-own-commit")
+                    if v[1] not in anc[i]:
+                        labels.add("dag:gitlink-to-own-commit-outside-history")
         if len(set(self.tree_ids)) < len(self.tree_ids):
             labels.add("dag:same-root-tree-twice")
         return labels
@@ -356,6 +371,7 @@ def strategies():
             st.tuples(st.just("del"), st.integers(0, len(PATHS) - 1)),
             st.tuples(st.just("cpdir")),
             st.tuples(st.just("link"), st.integers(0, 2)),
+            st.tuples(st.just("link"), st.integers(3, 11)),
             st.tuples(st.just("sym"), st.integers(0, 2)),
         ]
         if nparents > 1:
